@@ -89,4 +89,36 @@ CHECKS['C15'] = hist_check('C15', 'DDL histories over up to three tables in thre
 CHECKS['C15']['rule'] = CHECKS['C15']['rule'].replace('fresh single-table database', 'fresh database with up to three tables')
 CHECKS['C15']['min_counters'] = {'quick': {'steps.create_table_in_txn': 300, 'steps.create_unique_index': 100, 'steps.name_probe': 1000}, 'thorough': {'steps.create_table_in_txn': 5000}}
 
+CHECKS['C04'] = {
+    'level': 'exploration',
+    'exhaustive': False,
+    'rule': '12 families of 2-3 transaction programs (reads by key / range / count / full, inserts, deletes, commit or rollback) over t(id, v): ALL statement interleavings of every family '
+            '(4135 schedules) are executed, each on a fresh database, by one driver thread holding one session per program; plus seeded random program sets with a random interleaving. '
+            'Non-trivial = every schedule (>= 2 transactions overlap by construction); distinct = hash of (program set, order). Exhaustive per family, sampled over program sets.',
+    'legs': {'quick': [{'flavour': 'prod', 'shards': 16}], 'thorough': [{'flavour': 'prod', 'shards': 16}]},
+    'min_evaluations': {'quick': 6000, 'thorough': 80000},
+    'min_counters': {'quick': {'schedules_exhaustive': 4135, 'reads_checked': 15000}, 'thorough': {'schedules_exhaustive': 4135}},
+    'assumptions': ['statement-level interleavings only (intra-statement races are C14)', 'snapshot is taken when the session is created', 'release-equivalent build, feature verif on'],
+    'technique': 'schedule enumeration with an online snapshot-isolation reference model (unique written values; every read, affected count, commit outcome and final state checked)',
+    'level_text': 'Every statement interleaving of 12 program families (bounded-exhaustive) and 4000 (quick) / 96000 (thorough) sampled schedules is run against the real engine; each read must equal '
+                  'snapshot-at-begin + own writes, a repeated read must repeat, commits must follow first-committer-wins, and the final committed state must equal the model. Violations are classified '
+                  '(sees-foreign-write, misses-visible-row, wrong-version, sees-deleted-row, ww-both-commit).',
+    'level_note': 'UPDATE and two writers of the same row are excluded from the enumerated/sampled programs on this tree (open findings, replayed as witnesses); statement granularity only.',
+}
+
+CHECKS['C06'] = {
+    'level': 'exploration',
+    'rule': 'seeded histories on a table with a UNIQUE index on id (declared at CREATE TABLE, or created after the data), then plan-variant pairs: index lookup vs wrapped predicate for every key and absent keys; '
+            'indexable range forms vs wrapped forms with residual predicates; ternary-logic partitions; swapped join operands; the whole battery again after ANALYZE. Every variant is also compared with the '
+            'reference model. Non-trivial = the two variants have different EXPLAIN texts (TLP: always); distinct = hash of (history, query).',
+    'legs': {'quick': [{'flavour': 'prod', 'shards': 16}], 'thorough': [{'flavour': 'prod', 'shards': 16}]},
+    'min_evaluations': {'quick': 50000, 'thorough': 1000000},
+    'min_counters': {'quick': {'plans.index_scan_seen': 5000, 'analyze_runs': 1000, 'pairs.index_vs_scan.plans_differ': 20000}, 'thorough': {'plans.index_scan_seen': 100000}},
+    'assumptions': EXPLORATION_ASSUMPTIONS + ['histories contain no UPDATE and no rolled-back write on the indexed table (open findings, replayed as witnesses)'],
+    'technique': 'metamorphic runtime monitor: plan-variant pairs (index vs scan, TLP, join swap, before/after ANALYZE) must agree with each other and with the reference model; EXPLAIN confirms the plans differ',
+    'level_text': 'For ~1900 (quick) / 48000 (thorough) histories, every key lookup through the index is compared with the scan path, range predicates in indexable and wrapped form, TLP partitions and swapped joins '
+                  'are compared pairwise and with the model, before and after ANALYZE. Sampling over histories and queries; equality is exact (bags).',
+    'level_note': 'Plan difference is taken from EXPLAIN text; variants that the optimizer plans identically are counted as trivial and excluded from distinct_nontrivial.',
+}
+
 NOT_APPLICABLE = [{'property_id': c, 'reason': 'check not built yet in this session (work in progress, see DESIGN.md)'} for c in ALL if c not in CHECKS]
